@@ -15,6 +15,7 @@
 package pbft
 
 import (
+	"os"
 	"time"
 
 	"github.com/dappledger/AnnChain/gemmill/go-wire"
@@ -55,6 +56,9 @@ type WAL struct {
 }
 
 func NewWAL(walDir string, light bool) (*WAL, error) {
+	if err := dropTornTail(walDir + "/wal"); err != nil {
+		return nil, err
+	}
 	group, err := auto.OpenGroup(walDir + "/wal")
 	if err != nil {
 		return nil, err
@@ -66,6 +70,49 @@ func NewWAL(walDir string, light bool) (*WAL, error) {
 	wal.BaseService = *gcmn.NewBaseService("WAL", wal)
 	_, err = wal.Start()
 	return wal, err
+}
+
+// dropTornTail removes an incomplete last line from the head file. A process
+// killed in the middle of a write leaves one behind; records appended after it
+// would be glued to it and the next replay would stop at the resulting garbage
+// line, losing every record that follows.
+func dropTornTail(headPath string) error {
+	f, err := os.OpenFile(headPath, os.O_RDWR, 0600)
+	if err != nil {
+		if os.IsNotExist(err) {
+			return nil
+		}
+		return err
+	}
+	defer f.Close()
+	fi, err := f.Stat()
+	if err != nil {
+		return err
+	}
+	end := fi.Size()
+	buf := make([]byte, 4096)
+	for pos := end; pos > 0; {
+		n := int64(len(buf))
+		if n > pos {
+			n = pos
+		}
+		pos -= n
+		if _, err := f.ReadAt(buf[:n], pos); err != nil {
+			return err
+		}
+		for i := n - 1; i >= 0; i-- {
+			if buf[i] == '\n' {
+				if pos+i+1 == end {
+					return nil // the file ends with a complete line
+				}
+				return f.Truncate(pos + i + 1)
+			}
+		}
+	}
+	if end > 0 {
+		return f.Truncate(0) // a single incomplete line
+	}
+	return nil
 }
 
 func (wal *WAL) OnStart() error {
